@@ -10,6 +10,7 @@ import json, os, re, shutil, subprocess, sys, tempfile
 
 VERIF = os.path.dirname(os.path.dirname(os.path.abspath(__file__)))
 ROOT = "/tmp/seed3"
+TAG = ""
 
 
 def sh(cmd, cwd=None, env=None, timeout=900):
@@ -51,7 +52,7 @@ def one(pid, k, keep):
                 alarms[p] = (pr.returncode, [l[:300] for l in out.splitlines() if ("—" in l and "[" in l) or "ANALYSIS-ERROR" in l][:4])
         files = sorted(set(re.findall(r"^\+\+\+ b/(\S+)", open(patch).read(), re.M)))
         print("%-8s confirmed=%s demo(clean/patched)=%s/%s same_output=%s suite=%s | touches %s | %s" % (
-            "%s-%s" % (pid, k), confirmed, rc0, rc1, same, suite, ",".join(f.replace("src/bits/", "") for f in files),
+            "%s-%s%s" % (pid, TAG, k), confirmed, rc0, rc1, same, suite, ",".join(f.replace("src/bits/", "") for f in files),
             "all 20 checks silent" if not alarms else "ALARMS " + " ".join("%s:rc=%d" % (p, v[0]) for p, v in alarms.items())))
         for p, v in alarms.items():
             for l in v[1][:3]:
@@ -59,7 +60,7 @@ def one(pid, k, keep):
         if not confirmed:
             print("        (not confirmed: %s | %s)" % (o0.strip()[-100:], o1.strip()[-100:]))
         if keep and confirmed:
-            dst = os.path.join(VERIF, "benign", "%s-%s" % (pid, k))
+            dst = os.path.join(VERIF, "benign", "%s-%s%s" % (pid, TAG, k))
             os.makedirs(dst, exist_ok=True)
             shutil.copy(patch, os.path.join(dst, "patch.diff"))
             shutil.copy(demo, os.path.join(dst, "demo.py"))
@@ -79,6 +80,8 @@ if __name__ == "__main__":
     for a in sys.argv:
         if a.startswith("--root="):
             ROOT = a.split("=", 1)[1]
+        if a.startswith("--tag="):
+            TAG = a.split("=", 1)[1]
     ks = ["1", "2", "3"] if len(args) < 2 or args[1] == "all" else [args[1]]
     for k in ks:
         one(args[0].upper(), k, "--keep" in sys.argv)
